@@ -10,7 +10,7 @@ import I2N.Model.Rules
     decide;<cfg>;<worker>;<results>;<finished>;<scan>;<disabled> -> <run> <disabled'> | error:<kind>
     verdict;name:uid:STATUS|…                                    -> true | false | error:keyError
     m-new;name:pfx:preName:prePfx|…   m-start;i   m-finish;j;<outcome>   m-replay;i;<results>
-    m-pre;i;<outcome>   m-dump   m-verdict   m-issued
+    m-pre;i;<outcome>   suite;<job>;<task results ,>   m-dump   m-verdict   m-issued
     outcome := STATUS:time:delay | never
     splitws;<s>  splitcomma;<s>  int;<s>  substr;<a>;<b>  lower;<s>   (helper cross-checks) -/
 open I2N.Rules
@@ -113,6 +113,10 @@ def stepLine (s : St) (line : String) : St × String :=
       | none => (s, "bad-op")
     | _ => (s, "bad-op")
   | ["verdict", js] => (s, showExceptBool (allResultsOk (parseJob js)))
+  | ["suite", js, trs] =>
+    (s, match suiteSummary (parseJob js) (if trs == "" then [] else fields ',' trs) with
+        | .ok sm => ",".intercalate sm ++ " " ++ showBool (reportedSuccessful sm)
+        | .error e => errS e)
   | ["m-new", cs] => ({ copies := parseCopies cs }, "ok")
   | ["m-start", i] =>
     match i.toNat? with
